@@ -160,9 +160,31 @@ def _alphabet(m):
     return ops
 
 
+def _chain_model(n):
+    m = {'inputs': {'Sheet1!A1': 1}, 'formulas': {}, 'sheets': ['Sheet1']}
+    for k in range(2, n + 1):
+        m['formulas']['Sheet1!A%d' % k] = ['op', '+', ['ref', 'A%d' % (k - 1)],
+                                           ['num', '1']]
+    m['order'] = list(m['formulas'])
+    return m
+
+
 def enumerate_cases(tier, shard=0, nshards=1):
     maxlen = 4 if tier == 'quick' else 5
     i = 0
+    # long dependency chains (66, 130, 200 formulas): staleness that only
+    # starts beyond some depth
+    for n in (66, 130, 200):
+        top, mid = 'Sheet1!A%d' % n, 'Sheet1!A%d' % (n // 2)
+        for hist in ([['eval', top], ['set', 'Sheet1!A1', 1000],
+                      ['eval', top], ['get', top]],
+                     [['eval', mid], ['eval', top], ['set', 'Sheet1!A1', 7],
+                      ['eval', top], ['eval', mid]],
+                     [['eval', top], ['newev'], ['set', 'Sheet1!A1', 3],
+                      ['eval', top]]):
+            i += 1
+            if i % nshards == shard:
+                yield {'model': _chain_model(n), 'history': hist}
     for mi, m in enumerate(FIXED):
         alpha = _alphabet(m)
         # (the workbook path costs ~10 ms per history: one step shorter)
